@@ -274,7 +274,27 @@ func (e *Engine) runInstrs(st *State, b *ssa.BasicBlock, i int, prev *ssa.BasicB
 
 // doPanic handles reaching a panic site: an obligation that the site is unreachable.
 func (e *Engine) doPanic(st *State, pos token.Pos, desc, kind string) {
-	e.oblige(st, kind, "", pos, e.tb.False(), desc)
+	goal := e.tb.False()
+	// documented panics ("panics <cond>" in the contract of the function under verification): an explicit panic is
+	// allowed where the condition holds (evaluated over the function's parameters in the current state)
+	if kind == "panic" && e.cur != nil && e.cur.Contract != nil && len(e.cur.Contract.Panics) > 0 && len(st.Frames) > 0 {
+		fr := st.Frames[0]
+		env := map[string]specBind{}
+		names, typs := sigParams(fr.Fn.Signature, nil)
+		for i := range names {
+			if i < len(fr.Params) {
+				env[names[i]] = specBind{fr.Params[i], typs[i]}
+			}
+		}
+		sc := &specCtx{e: e, st: st, heap: st.Heap, oldHeap: e.entryHeap, oldAlloc: e.entryAlloc, env: env, pkg: e.specPkg(e.cur.Contract)}
+		var alts []*Term
+		for _, cl := range e.cur.Contract.Panics {
+			e.Assumed["documented panic of "+e.cur.Key+" (allowed, not a violation): "+cl.Src] = true
+			alts = append(alts, e.evalClause(sc, cl))
+		}
+		goal = e.tb.Or(alts...)
+	}
+	e.oblige(st, kind, "", pos, goal, desc)
 	e.pathEnd()
 }
 
